@@ -247,7 +247,8 @@ def correspond(ctx):
     rng = ctx.rng
     from harness import bodies, classdef
     bodies.corr_ns_bodies(ctx, corr)
-    classdef.corr_class_defs(ctx, corr)          # whole units: namespaces, linkage blocks, classes, statements (Parse/ClassDef.v)
+    classdef.corr_class_defs(ctx, corr)
+    classdef.corr_corpus_units(ctx, corr)          # whole units: namespaces, linkage blocks, classes, statements (Parse/ClassDef.v)
     srcs = list(impl.corpus())
     for _ in range(ctx.scale(300, 6000)):
         srcs.append(blocks.gen_program(rng, rng.choice([4, 10, 25, 50])).source())
